@@ -781,7 +781,7 @@ namespace awkward {
     return std::make_shared<ByteMaskedArray>(identities,
                                              parameters_,
                                              nextmask,
-                                             content_.get()->carry(carry, allow_lazy),
+                                             content_.get()->carry(carry, false),
                                              valid_when_);
   }
 
